@@ -228,7 +228,9 @@ OutViol(ev, o, ln) ==
     IF ~P.ok THEN <<[l |-> ln, prop |-> "C02,C13,C01,C09", what |-> "closed output is not exactly one well-formed CBOR data item",
                      size |-> Len(bytes)]>> \o LedgerViol
     ELSE LET errs == FileErrs(P.n) IN
-    IF errs # {} THEN <<[l |-> ln, prop |-> "C02,C13,C01,C09", what |-> "closed output violates the RFC 8618 schema", errs |-> errs]>> \o LedgerViol
+    \* (an index that addresses no table entry: referential closure of the block tables, C11)
+    IF errs # {} THEN <<[l |-> ln, prop |-> IF ClosureErrs(errs) # {} THEN "C02,C13,C01,C09,C11" ELSE "C02,C13,C01,C09",
+                         what |-> "closed output violates the RFC 8618 schema", errs |-> errs]>> \o LedgerViol
     ELSE
     LET D    == DenFile(P.n)
         expP == ExpPreamble(o)
@@ -243,7 +245,9 @@ OutViol(ev, o, ln) ==
       \o (IF "rd" \notin DOMAIN ev THEN <<>>
           ELSE LET rd == ev.rd IN
                IF rd.fin # "eof" THEN
-                    <<[l |-> ln, prop |-> "C01,C02", what |-> "the library's own reader fails on the output: " \o rd.fin,
+                    \* (it failed before it had the preamble: the preamble written cannot be read back, C09)
+                    <<[l |-> ln, prop |-> IF "preamble" \in DOMAIN rd THEN "C01,C02" ELSE "C01,C02,C09",
+                       what |-> "the library's own reader fails on the output: " \o rd.fin,
                        msg |-> IF "msg" \in DOMAIN rd THEN rd.msg ELSE ""]>>
                ELSE (IF rd.preamble = expP THEN <<>>
                      ELSE <<[l |-> ln, prop |-> "C09", what |-> "preamble returned by the library's reader differs from the preamble supplied",
@@ -265,9 +269,11 @@ FormViol(ev, ln) ==
          IF ~P.ok THEN <<[l |-> ln, prop |-> "C02,C13,C01,C09", what |-> "closed output is not exactly one well-formed CBOR data item",
                           size |-> Len(bytes)]>>
          ELSE IF FileErrs(P.n) # {}
-         THEN <<[l |-> ln, prop |-> "C02,C13,C01,C09", what |-> "closed output violates the RFC 8618 schema", errs |-> FileErrs(P.n)]>>
+         THEN <<[l |-> ln, prop |-> IF ClosureErrs(FileErrs(P.n)) # {} THEN "C02,C13,C01,C09,C11" ELSE "C02,C13,C01,C09",
+                 what |-> "closed output violates the RFC 8618 schema", errs |-> FileErrs(P.n)]>>
          ELSE IF "rd" \in DOMAIN ev /\ ev.rd.fin # "eof"
-         THEN <<[l |-> ln, prop |-> "C01,C02", what |-> "the library's own reader fails on the output: " \o ev.rd.fin]>>
+         THEN <<[l |-> ln, prop |-> IF "preamble" \in DOMAIN ev.rd THEN "C01,C02" ELSE "C01,C02,C09",
+                 what |-> "the library's own reader fails on the output: " \o ev.rd.fin]>>
          ELSE <<>>
 
 TOut ==
